@@ -1,18 +1,283 @@
-use vcore::*;
+//! Check runner. Parent mode fans the universe out to worker processes (so that an abort or
+//! hang of the subject is an outcome of one case, not of the checker), aggregates, applies
+//! the known-findings list, writes evidence, prints VIOLATION / KNOWN-FINDING lines.
+//!
+//!   runner <Cxx> <quick|thorough> [--only <type_id>] [--jobs N]
+//!   runner <Cxx> <tier> --worker <i> <n> [--from k] [--only <type_id>]
+
+mod universe;
+
+use serde_json::{json, Value};
+use std::collections::BTreeMap;
+use std::io::{BufRead, BufReader, Write};
+use std::process::{Command, Stdio};
+use std::time::Instant;
 use vcore::cx::*;
+
 #[global_allocator]
 static A: vcore::env::Tracking = vcore::env::Tracking;
-fn main() {
+
+const VERIF: &str = "/verif";
+
+fn level_of(check: &str) -> &'static str {
+    match check {
+        "C10" | "C11" | "C13" | "C14" => "fault_enumeration",
+        "C19" => "model_checking",
+        _ => "exploration",
+    }
+}
+
+fn worker(check: &str, tier: Tier, i: usize, n: usize, from: usize, only: Option<&str>) {
     vcore::env::install_panic_hook();
+    let all = universe::all();
+    let mine: Vec<&vcore::Entry> = all.iter().enumerate().filter(|(k, e)| k % n == i && only.map_or(true, |o| o == e.id)).map(|(_, e)| e).collect();
+    let out = std::io::stdout();
+    let mut cx = Cx::new(check, tier);
+    for (k, e) in mine.iter().enumerate().skip(from) {
+        {
+            let mut o = out.lock();
+            writeln!(o, "{}", json!({"t": "begin", "k": k, "type_id": e.id})).unwrap();
+            o.flush().unwrap();
+        }
+        cx.type_id = e.id.to_string();
+        if let Err(p) = vcore::env::guarded(|| vcore::run_check(e.ops.as_ref(), check, &mut cx)) { cx.machinery_error(format!("checker panicked: {}", p)); }
+        let v = cx.flush_type();
+        let mut o = out.lock();
+        writeln!(o, "{}", v).unwrap();
+        o.flush().unwrap();
+    }
+    let mut o = out.lock();
+    writeln!(o, "{}", json!({"t": "done"})).unwrap();
+}
+
+#[derive(Default)]
+struct Agg {
+    types: u64,
+    evals: u64,
+    transitions: u64,
+    nontrivial: u64,
+    outcomes: BTreeMap<String, u64>,
+    counters: BTreeMap<String, u64>,
+    viols: Vec<(String, u64, Value)>,
+    samples: Vec<Value>,
+    notes: Vec<String>,
+    machinery: Vec<String>,
+}
+
+impl Agg {
+    fn absorb(&mut self, v: &Value) {
+        self.types += 1;
+        self.evals += v["evals"].as_u64().unwrap_or(0);
+        self.transitions += v["transitions"].as_u64().unwrap_or(0);
+        self.nontrivial += v["nontrivial"].as_u64().unwrap_or(0);
+        for (k, n) in v["outcomes"].as_object().into_iter().flatten() { *self.outcomes.entry(k.clone()).or_insert(0) += n.as_u64().unwrap_or(0); }
+        for (k, n) in v["counters"].as_object().into_iter().flatten() { *self.counters.entry(k.clone()).or_insert(0) += n.as_u64().unwrap_or(0); }
+        for x in v["viols"].as_array().into_iter().flatten() {
+            self.viols.push((x["key"].as_str().unwrap().to_string(), x["count"].as_u64().unwrap_or(1), x["detail"].clone()));
+        }
+        for s in v["samples"].as_array().into_iter().flatten() { if self.samples.len() < 6 || self.types % 97 == 0 && self.samples.len() < 12 { self.samples.push(s.clone()); } }
+        for s in v["notes"].as_array().into_iter().flatten() { self.notes.push(s.as_str().unwrap_or("").to_string()); }
+        for s in v["machinery"].as_array().into_iter().flatten() { self.machinery.push(s.as_str().unwrap_or("").to_string()); }
+    }
+}
+
+/// Run one worker slot to completion, restarting after crashes.
+fn run_slot(exe: &std::path::Path, check: &str, tier: Tier, i: usize, n: usize, only: Option<&str>) -> (Vec<Value>, Vec<(String, String)>) {
+    let mut lines = Vec::new();
+    let mut crashes = Vec::new();
+    let mut from = 0usize;
+    loop {
+        let mut cmd = Command::new(exe);
+        cmd.arg(check).arg(tier.name()).arg("--worker").arg(i.to_string()).arg(n.to_string()).arg("--from").arg(from.to_string());
+        if let Some(o) = only { cmd.arg("--only").arg(o); }
+        cmd.env("RUST_BACKTRACE", "0").stdout(Stdio::piped()).stderr(Stdio::null());
+        let mut child = cmd.spawn().expect("spawn worker");
+        let rd = BufReader::new(child.stdout.take().unwrap());
+        let mut current: Option<(usize, String)> = None;
+        let mut done = false;
+        for l in rd.lines() {
+            let l = match l { Ok(l) => l, Err(_) => break };
+            let v: Value = match serde_json::from_str(&l) { Ok(v) => v, Err(_) => continue };
+            match v["t"].as_str() {
+                Some("begin") => current = Some((v["k"].as_u64().unwrap() as usize, v["type_id"].as_str().unwrap().to_string())),
+                Some("type") => { current = None; lines.push(v); }
+                Some("done") => done = true,
+                _ => {}
+            }
+        }
+        let status = child.wait().expect("wait");
+        if done && status.success() { break; }
+        match current {
+            Some((k, ty)) => {
+                let how = {
+                    use std::os::unix::process::ExitStatusExt;
+                    match status.signal() { Some(s) => format!("signal{}", s), None => format!("exit{}", status.code().unwrap_or(-1)) }
+                };
+                crashes.push((ty, how));
+                from = k + 1;
+            }
+            None => {
+                if done { break; }
+                // crashed outside a type: machinery problem
+                crashes.push(("<worker>".into(), "crashed outside any case".into()));
+                break;
+            }
+        }
+    }
+    (lines, crashes)
+}
+
+fn load_known(check: &str) -> Vec<(String, String)> {
+    let mut v = Vec::new();
+    if let Ok(s) = std::fs::read_to_string(format!("{}/KNOWN_FINDINGS.txt", VERIF)) {
+        for l in s.lines() {
+            let l = l.trim();
+            if let Some(rest) = l.strip_prefix("known:") {
+                let rest = rest.trim();
+                let mut prop = ""; let mut key = ""; let mut desc = "";
+                if let Some((head, d)) = rest.split_once(" :: ") { desc = d; for part in head.split(" key=") { if let Some(p) = part.trim().strip_prefix("property=") { prop = p.trim(); } else { key = part.trim(); } } }
+                if prop == check { v.push((key.to_string(), desc.to_string())); }
+            }
+        }
+    }
+    v
+}
+
+fn main() {
     let args: Vec<String> = std::env::args().collect();
-    let es: Vec<Entry> = vec![
-        entry::<u8>("u8"), entry::<std::ops::RangeFull>("RangeFull"), entry::<std::ops::RangeTo<u8>>("RangeTo<u8>"), entry::<Vec<std::ops::RangeToInclusive<u64>>>("vrti"), entry::<Vec<u32>>("Vec<u32>"), entry::<Vec<String>>("Vec<String>"),
-        entry::<Option<Vec<u64>>>("Option<Vec<u64>>"), entry::<(u16,u16)>("(u16,u16)"), entry::<[u32;3]>("[u32;3]"),
-        entry::<[u32;0]>("[u32;0]"), entry::<Vec<()>>("Vec<()>"),
-        entry::<std::ops::ControlFlow<u8,u16>>("ControlFlow<u8,u16>"),
-        entry::<std::ops::Bound<String>>("Bound<String>"), entry::<std::ops::RangeInclusive<u32>>("RangeInclusive<u32>"),
-        entry::<Vec<std::ops::RangeTo<(u8,u8,u8)>>>("Vec<RangeTo<(u8,u8,u8)>>"),
-    ];
-    let mut cx = Cx::new(&args[1], Tier::Quick);
-    for e in &es { cx.type_id = e.id.to_string(); (e.run)(&args[1], &mut cx); println!("{}", cx.flush_type()); }
+    if args.len() < 3 { eprintln!("usage: runner <Cxx> <quick|thorough> [...]"); std::process::exit(2); }
+    let check = args[1].as_str();
+    let tier = match args[2].as_str() { "quick" => Tier::Quick, "thorough" => Tier::Thorough, _ => { eprintln!("bad tier"); std::process::exit(2) } };
+    let mut only: Option<String> = None;
+    let mut jobs = 16usize;
+    let mut wk: Option<(usize, usize)> = None;
+    let mut from = 0usize;
+    let mut i = 3;
+    while i < args.len() {
+        match args[i].as_str() {
+            "--only" => { only = Some(args[i + 1].clone()); i += 2; }
+            "--jobs" => { jobs = args[i + 1].parse().unwrap(); i += 2; }
+            "--worker" => { wk = Some((args[i + 1].parse().unwrap(), args[i + 2].parse().unwrap())); i += 3; }
+            "--from" => { from = args[i + 1].parse().unwrap(); i += 2; }
+            "--replay" => {
+                let v: Value = serde_json::from_str(&std::fs::read_to_string(&args[i + 1]).expect("replay file")).expect("replay json");
+                only = v["type_id"].as_str().map(|s| s.to_string());
+                i += 2;
+            }
+            other => { eprintln!("unknown arg {}", other); std::process::exit(2); }
+        }
+    }
+    if let Some((wi, wn)) = wk { worker(check, tier, wi, wn, from, only.as_deref()); return; }
+
+    let t0 = Instant::now();
+    let exe = std::env::current_exe().unwrap();
+    let handles: Vec<_> = (0..jobs).map(|i| {
+        let exe = exe.clone(); let check = check.to_string(); let only = only.clone();
+        std::thread::spawn(move || run_slot(&exe, &check, tier, i, jobs, only.as_deref()))
+    }).collect();
+    let mut agg = Agg::default();
+    let mut crashes = Vec::new();
+    for h in handles {
+        let (lines, cr) = h.join().unwrap();
+        for l in &lines { agg.absorb(l); }
+        crashes.extend(cr);
+    }
+    for (ty, how) in &crashes {
+        if ty == "<worker>" { agg.machinery.push(format!("worker {}", how)); continue; }
+        agg.viols.push((format!("{}|{}|abort:{}", check, ty, how), 1, json!({"check": check, "type_id": ty, "class": format!("abort:{}", how), "observed": "the process running the subject died (abort/segfault) while exploring this type"})));
+    }
+    agg.viols.sort_by(|a, b| a.0.cmp(&b.0));
+    finish(check, tier, agg, t0, only.is_some());
+}
+
+fn finish(check: &str, tier: Tier, agg: Agg, t0: Instant, partial: bool) {
+    let known = load_known(check);
+    let replay_dir = format!("{}/evidence/replay", VERIF);
+    let _ = std::fs::create_dir_all(&replay_dir);
+    let mut new_viol = 0u64;
+    let mut known_hit = Vec::new();
+    let mut viol_lines = Vec::new();
+    for (n, (key, count, detail)) in agg.viols.iter().enumerate() {
+        if let Some((_, desc)) = known.iter().find(|(k, _)| k == key) {
+            known_hit.push(key.clone());
+            println!("KNOWN-FINDING: property={} {} [{}]", check, desc, key);
+            continue;
+        }
+        new_viol += 1;
+        let path = format!("{}/{}-{:04}.json", replay_dir, check, n);
+        let mut d = detail.clone();
+        if let Value::Object(m) = &mut d { m.insert("key".into(), json!(key)); m.insert("occurrences".into(), json!(count)); m.insert("tier".into(), json!(tier.name())); }
+        std::fs::write(&path, serde_json::to_string_pretty(&d).unwrap()).unwrap();
+        viol_lines.push(format!("VIOLATION property={} replay={}", check, path));
+        if new_viol <= 40 { eprintln!("  violation {} x{}: {}", key, count, detail.get("observed").map(|v| v.to_string()).unwrap_or_default()); }
+    }
+    for l in &viol_lines { println!("{}", l); }
+    let universe: Value = std::fs::read_to_string(format!("{}/harness/universe.json", VERIF)).ok().and_then(|s| serde_json::from_str(&s).ok()).unwrap_or(json!({}));
+    let distinct_outcomes = agg.outcomes.len();
+    let ev = json!({
+        "property_id": check,
+        "tier": tier.name(),
+        "seed": std::env::var("VERIF_SEED").ok().and_then(|s| s.parse::<i64>().ok()).unwrap_or(0),
+        "level": level_of(check),
+        "coverage": {
+            "evaluations": agg.evals,
+            "distinct_nontrivial": agg.nontrivial,
+            "rule": rule_of(check),
+            "samples": agg.samples,
+            "exhaustive": !partial,
+            "types": agg.types,
+            "transitions": agg.transitions,
+            "traces_validated_against_impl": agg.evals,
+            "outcomes": agg.outcomes,
+            "distinct_outcome_classes": distinct_outcomes,
+            "counters": agg.counters,
+            "universe": universe,
+            "known_findings_matched": known_hit,
+            "new_violations": new_viol,
+            "suspicious_single_outcome": distinct_outcomes <= 1,
+        },
+        "assumptions": assumptions_of(check),
+        "wall_s": t0.elapsed().as_secs_f64(),
+        "violations": new_viol,
+    });
+    if !partial && check != "GOLDGEN" {
+        std::fs::write(format!("{}/evidence/{}.json", VERIF, check), serde_json::to_string_pretty(&ev).unwrap()).unwrap();
+    }
+    if check == "GOLDGEN" {
+        let dir = std::env::var("VERIF_GOLDEN_OUT").unwrap_or_else(|_| "/verif".into());
+        let mut hashes: Vec<&str> = agg.notes.iter().filter(|l| l.starts_with("HASH ")).map(|s| s.as_str()).collect();
+        hashes.sort();
+        let mut corpus: Vec<&str> = agg.notes.iter().filter_map(|l| l.strip_prefix("CORPUS ")).collect();
+        corpus.sort();
+        std::fs::create_dir_all(format!("{}/golden", dir)).unwrap();
+        std::fs::create_dir_all(format!("{}/corpus", dir)).unwrap();
+        std::fs::write(format!("{}/golden/hashes.txt", dir), hashes.join("\n") + "\n").unwrap();
+        std::fs::write(format!("{}/corpus/pinned.tsv", dir), corpus.join("\n") + "\n").unwrap();
+        eprintln!("golden: {} hashes, {} corpus files", hashes.len(), corpus.len());
+        std::process::exit(0);
+    }
+    eprintln!("{} {}: types={} evaluations={} nontrivial={} transitions={} violations={} known={} wall={:.1}s",
+        check, tier.name(), agg.types, agg.evals, agg.nontrivial, agg.transitions, new_viol, known_hit.len(), t0.elapsed().as_secs_f64());
+    if !agg.machinery.is_empty() {
+        for m in agg.machinery.iter().take(10) { eprintln!("MACHINERY: {}", m); }
+        std::process::exit(2);
+    }
+    std::process::exit(if new_viol > 0 { 1 } else { 0 });
+}
+
+fn rule_of(check: &str) -> &'static str {
+    match check {
+        "C01" => "every (type, value) of the generated bounded universe (complete product of leaf alphabets / sequence lengths per type, see DESIGN 2.2) through serialize + deserialize_full, plus the inner API at every start-offset residue 0..63; a case is distinct by (type, abstract value)",
+        "C02" => "every (type, value) of the universe through serialize + deserialize_eps on a 4096-aligned arena, compared with the original and with deserialize_full; distinct by (type, abstract value)",
+        "C03" => "every (type, value) of the universe: borrowed spans of the eps result vs the model's borrowed Block events; non-trivial = the model trace has at least one borrowed block; allocation measured at scalings 1/8/64",
+        "C06" => "every (type, value) of the universe: emitted bytes vs the independent reference encoder, header hash words vs the independent recipe; distinct by (type, abstract value)",
+        "C07" => "every (type, value): byte counts of serialize/deserialize; first values of every type at every start-offset residue with a recording WriteWithNames (align/write_bytes events)",
+        _ => "see DESIGN.md",
+    }
+}
+
+fn assumptions_of(check: &str) -> Vec<&'static str> {
+    let mut v = vec!["x86_64 little-endian Linux only", "bounded universe of types/values as generated by gen/universe.py (DESIGN 2)", "reference model in harness/vcore/src/model.rs; XXH3 and core::hash::Hash for str/usize are trusted"];
+    if check == "C03" { v.push("allocation independence checked for scalings 1, 8, 64 only"); }
+    v
 }
